@@ -6,6 +6,9 @@
  * file, you can obtain one at https://mozilla.org/MPL/2.0/.
  */
 
+#include <algorithm>
+#include <vector>
+
 #include "cdns_decoder.h"
 
 CDNS::CborType CDNS::CdnsDecoder::peek_type()
@@ -187,73 +190,90 @@ void CDNS::CdnsDecoder::read_break()
 
 void CDNS::CdnsDecoder::skip_item()
 {
-    CborType cbor_type;
-    uint8_t item_length;
-    read_cbor_type(cbor_type, item_length);
+    // Number of data items still to be skipped on every open nesting level. Kept on the heap
+    // instead of recursing, so nesting depth controlled by the input can't exhaust the stack.
+    // INDEF marks an indefinite length array or map, which is closed by a "break" stop code.
+    constexpr uint64_t INDEF = UINT64_MAX;
+    std::vector<uint64_t> pending{1};
 
-    switch (cbor_type) {
-        case CborType::UNSIGNED:
-        case CborType::NEGATIVE:
-        case CborType::TAG:
-            if (item_length >= 28) {
-                throw CdnsDecoderException(("Unsupported CBOR additional information value: " +
-                                            std::to_string(item_length)).c_str());
+    while (!pending.empty()) {
+        if (pending.back() == INDEF) {
+            if (peek_type() == CborType::BREAK) {
+                m_p++;
+                pending.pop_back();
+                continue;
             }
-            read_int(item_length);
+        }
+        else if (pending.back() == 0) {
+            pending.pop_back();
+            continue;
+        }
+        else {
+            pending.back()--;
+        }
 
-            // A tag is followed by the data item it applies to, which belongs to the skipped item
-            if (cbor_type == CborType::TAG)
-                skip_item();
-            break;
+        CborType cbor_type;
+        uint8_t item_length;
+        read_cbor_type(cbor_type, item_length);
 
-        case CborType::SIMPLE:
-            if (item_length >= 28 && item_length <= 30) {
-                throw CdnsDecoderException(("Unsupported CBOR additional information value: " +
-                                            std::to_string(item_length)).c_str());
-            }
-            read_int(item_length);
-            break;
-
-        case CborType::BYTE_STRING:
-        case CborType::TEXT_STRING:
-            if (item_length >= 28 && item_length <= 30) {
-                throw CdnsDecoderException(("Unsupported CBOR additional information value: " +
-                                            std::to_string(item_length)).c_str());
-            }
-            read_string(cbor_type, read_int(item_length), item_length == 31 ? true : false);
-            break;
-
-        case CborType::ARRAY:
-        case CborType::MAP:
-            if (item_length >= 28 && item_length <= 30) {
-                throw CdnsDecoderException(("Unsupported CBOR additional information value: " +
-                                            std::to_string(item_length)).c_str());
-            }
-            if (item_length == 31) {
-                while(true) {
-                    if (peek_type() == CborType::BREAK) {
-                        m_p++;
-                        break;
-                    }
-                    skip_item();
-                    if (cbor_type == CborType::MAP)
-                        skip_item();
+        switch (cbor_type) {
+            case CborType::UNSIGNED:
+            case CborType::NEGATIVE:
+            case CborType::TAG:
+                if (item_length >= 28) {
+                    throw CdnsDecoderException(("Unsupported CBOR additional information value: " +
+                                                std::to_string(item_length)).c_str());
                 }
-            }
-            else {
-                uint64_t item_count = read_int(item_length);
-                for (unsigned i = 0; i < item_count; i++) {
-                    skip_item();
-                    if (cbor_type == CborType::MAP)
-                        skip_item();
-                }
-            }
-            break;
+                read_int(item_length);
 
-        default:
-            throw CdnsDecoderException(("Unknown CBOR major type " +
-                                        std::to_string(static_cast<uint8_t>(cbor_type) >> 5)).c_str());
-            break;
+                // A tag is followed by the data item it applies to, which belongs to the skipped item
+                if (cbor_type == CborType::TAG)
+                    pending.push_back(1);
+                break;
+
+            case CborType::SIMPLE:
+                if (item_length >= 28) {
+                    throw CdnsDecoderException(("Unsupported CBOR additional information value: " +
+                                                std::to_string(item_length)).c_str());
+                }
+                read_int(item_length);
+                break;
+
+            case CborType::BYTE_STRING:
+            case CborType::TEXT_STRING:
+                if (item_length >= 28 && item_length <= 30) {
+                    throw CdnsDecoderException(("Unsupported CBOR additional information value: " +
+                                                std::to_string(item_length)).c_str());
+                }
+                read_string(cbor_type, read_int(item_length), item_length == 31 ? true : false);
+                break;
+
+            case CborType::ARRAY:
+            case CborType::MAP:
+                if (item_length >= 28 && item_length <= 30) {
+                    throw CdnsDecoderException(("Unsupported CBOR additional information value: " +
+                                                std::to_string(item_length)).c_str());
+                }
+                if (item_length == 31) {
+                    pending.push_back(INDEF);
+                }
+                else {
+                    // A map holds two data items per entry. Counts that can't be represented can't
+                    // be satisfied by any input either, reading will stop at the end of input.
+                    uint64_t item_count = read_int(item_length);
+                    if (cbor_type == CborType::MAP)
+                        item_count = item_count > (INDEF - 1) / 2 ? INDEF - 1 : item_count * 2;
+                    else if (item_count == INDEF)
+                        item_count = INDEF - 1;
+                    pending.push_back(item_count);
+                }
+                break;
+
+            default:
+                throw CdnsDecoderException(("Unknown CBOR major type " +
+                                            std::to_string(static_cast<uint8_t>(cbor_type) >> 5)).c_str());
+                break;
+        }
     }
 }
 
@@ -288,8 +308,9 @@ std::string CDNS::CdnsDecoder::read_string(CborType cbor_type, uint64_t length, 
     std::string ret;
 
     if (!indef) {
-        ret.reserve(length);
-        for (unsigned i = 0; i < length; i++) {
+        // The length comes from the input, don't trust it with memory before the data arrives
+        ret.reserve(std::min<uint64_t>(length, static_cast<uint64_t>(BUFFER_SIZE)));
+        for (uint64_t i = 0; i < length; i++) {
             read_to_buffer();
             ret.push_back(m_p[0]);
             m_p++;
@@ -309,8 +330,8 @@ std::string CDNS::CdnsDecoder::read_string(CborType cbor_type, uint64_t length, 
             }
 
             uint64_t chunk_length = read_int(chunk_length_value);
-            ret.reserve(ret.size() + chunk_length);
-            for (unsigned i = 0; i < chunk_length; i++) {
+            ret.reserve(ret.size() + std::min<uint64_t>(chunk_length, static_cast<uint64_t>(BUFFER_SIZE)));
+            for (uint64_t i = 0; i < chunk_length; i++) {
                 read_to_buffer();
                 ret.push_back(m_p[0]);
                 m_p++;
